@@ -104,6 +104,7 @@ abbrev Macro := List MTok
 inductive SetOp | remove | assign (v : Macro) deriving Repr, DecidableEq
 
 inductive EngineMode | on | detectionOnly | off deriving Repr, DecidableEq
+inductive AuditEngine | on | off | relevantOnly deriving Repr, DecidableEq
 inductive Allow | unset | phase | request | all deriving Repr, DecidableEq
 
 /-- non-disruptive actions with a run-time effect -/
@@ -114,6 +115,8 @@ inductive NAct
   | ctlRemoveByRange (lo hi : Nat)
   | ctlRemoveByTag (tag : Bytes)
   | ctlRemoveTargetById (lo hi : Nat) (v : Var) (key : Bytes)
+  | ctlAuditEngine (m : AuditEngine)
+  | ctlAuditLogParts (modification : Bytes)
   | nop                                  -- log, msg, tag, capture, … : no state effect modelled
 deriving Repr, DecidableEq
 
@@ -187,6 +190,10 @@ structure Tx where
   matched : List Matched := []
   highestSeverity : Nat := 255
   audit : Bool := false
+  auditEngine : AuditEngine := .off
+  auditParts : Bytes := []             -- tx.AuditLogParts
+  respStatus : Bytes := []             -- RESPONSE_STATUS
+  respCode : Bytes := []               -- the code the connector will pass to ProcessResponseHeaders
   evalLog : List (Nat × Nat) := []     -- (phase, rule id) of every rule evaluation (ghost, for C02/C08)
   errCb : List Nat := []               -- error-callback invocations (rule ids), C19
 deriving Repr, DecidableEq
@@ -368,6 +375,32 @@ def setvarEval (tx : Tx) (key : Bytes) (op : SetOp) : Tx :=
             { tx with txc := tx.txc.set1 key (intToBytes r) }
       else { tx with txc := tx.txc.set1 key value }
 
+/-! ### audit log parts (types/waf.go:179 ParseAuditLogParts, 203 ApplyAuditLogParts) -/
+
+/-- the modifiable parts in canonical order: BCDEFGHIJK -/
+def orderedParts : Bytes := [0x42, 0x43, 0x44, 0x45, 0x46, 0x47, 0x48, 0x49, 0x4a, 0x4b]
+
+def parseParts (opts : Bytes) : Option Bytes :=
+  match opts with
+  | [] => none
+  | a :: rest =>
+    if a != 0x41 then none
+    else match rest.reverse with
+      | [] => none                     -- "A" alone does not end with Z
+      | z :: midRev =>
+        if z != 0x5a then none
+        else if midRev.all (orderedParts.contains ·) then some opts else none
+
+def applyParts (base modification : Bytes) : Option Bytes :=
+  match modification with
+  | [] => none
+  | c :: ps =>
+    if c != 0x2b && c != 0x2d then parseParts modification
+    else if !ps.all (orderedParts.contains ·) then none     -- includes the explicit A/Z refusal
+    else
+      let keep (p : UInt8) : Bool := if c == 0x2b then base.contains p || ps.contains p else base.contains p && !ps.contains p
+      some ((if base.contains 0x41 then [0x41] else []) ++ orderedParts.filter keep ++ (if base.contains 0x5a then [0x5a] else []))
+
 def runNAct (rules : List Rule) (tx : Tx) : NAct → Tx
   | .setvar k op => setvarEval tx (expand tx k) op
   | .ctlRuleEngine m => { tx with engine := m }
@@ -377,6 +410,11 @@ def runNAct (rules : List Rule) (tx : Tx) : NAct → Tx
     { tx with rmIds := tx.rmIds ++ (rules.filter (fun r => r.tags.contains tag)).map (·.id) }
   | .ctlRemoveTargetById lo hi v key =>
     { tx with rmTargets := tx.rmTargets ++ ((rules.filter (fun r => lo ≤ r.id && r.id ≤ hi)).map fun r => (r.id, v, key)) }
+  | .ctlAuditEngine m => { tx with auditEngine := m }
+  | .ctlAuditLogParts md =>
+    match applyParts tx.auditParts md with
+    | some p => { tx with auditParts := p }
+    | none => tx
   | .nop => tx
 
 def runNActs (rules : List Rule) (tx : Tx) (as : List NAct) : Tx := as.foldl (runNAct rules) tx
@@ -524,7 +562,7 @@ def apiStep (env : Env) (rules : List Rule) (tx : Tx) : Call → Tx × Option In
     if tx.engine == .off then (tx, none)
     else if tx.lastPhase ≥ 3 then (tx, tx.intr)
     else if tx.intr.isSome then (tx, tx.intr)
-    else let tx := evalPhase env rules 3 tx; (tx, tx.intr)
+    else let tx := evalPhase env rules 3 { tx with respStatus := tx.respCode }; (tx, tx.intr)
   | .respBody =>
     if tx.engine == .off then (tx, none)
     else if tx.intr.isSome then (tx, tx.intr)
@@ -534,11 +572,63 @@ def apiStep (env : Env) (rules : List Rule) (tx : Tx) : Call → Tx × Option In
     if tx.engine == .off then (tx, none)
     else (evalPhase env rules 5 tx, none)
 
+/-- transaction.go:1399-1425: does ProcessLogging hand a record to the audit writer?
+    `matchStatus` is the relevant-status pattern applied to a status text (none = no pattern). -/
+def auditDecision (tx : Tx) (matchStatus : Option (Bytes → Bool)) : Bool :=
+  match tx.auditEngine with
+  | .off => false
+  | .on => true
+  | .relevantOnly =>
+    let status := match tx.intr with
+      | some i => natToBytes i.status
+      | none => match tx.detIntr with
+        | some i => natToBytes i.status
+        | none => tx.respStatus
+    if tx.audit then
+      match matchStatus with
+      | some m => m status
+      | none => true
+    else
+      match matchStatus with
+      | some m => m status
+      | none => false
+
 def runCalls (env : Env) (rules : List Rule) : Tx → List Call → Tx × List (Option Intr)
   | tx, [] => (tx, [])
   | tx, c :: cs =>
     let (tx, o) := apiStep env rules tx c
     let (tx, os) := runCalls env rules tx cs
     (tx, o :: os)
+
+end Coraza.Engine
+
+namespace Coraza.Engine
+
+/-- transaction.go:1578-1633: with part K one message (carrying the rule id) per match datum of
+    every fired audit-enabled rule, in firing order; without K but with H one id-less message
+    (id 0 in the JSON) per such rule; otherwise none -/
+def auditMessageIds (rules : List Rule) (tx : Tx) : List Nat :=
+  let hasK := tx.auditParts.contains 0x4b
+  let hasH := tx.auditParts.contains 0x48
+  tx.matched.flatMap fun m =>
+    match rules.find? (fun r => r.id == m.id) with
+    | some r =>
+      if !r.audit then []
+      else if hasK then List.replicate m.datas.length m.id
+      else if hasH then [0]
+      else []
+    | none => []
+
+/-- the serial writer: every record is appended whole, followed by a newline, under one lock -/
+def writeRecords (rs : List Bytes) : Bytes := rs.flatMap (· ++ [0x0a])
+
+/-- splitting the file back into lines -/
+def splitLines : Bytes → List Bytes
+  | [] => []
+  | b :: tl =>
+    if b == 0x0a then [] :: splitLines tl
+    else match splitLines tl with
+      | [] => [[b]]          -- unterminated last line
+      | l :: ls => (b :: l) :: ls
 
 end Coraza.Engine
